@@ -24,13 +24,13 @@ Print Assumptions C22_make_link_label_and_href.
       to one to a segmentation of e (src segs = e: nothing lost, nothing added),
       every match has the shape the pattern promises, every piece obeys 1., and
       dropping everything between angle brackets from the output string leaves
-      exactly the texts and labels (extra_params must not contain a greater-than sign). *)
+      exactly the texts and labels (extra_params -- a str or ANY callable -- must not bring a greater-than sign). *)
 Theorem C22_linkify_is_escaped_text_plus_links :
   forall v o e, xhtml_escape v = Ok e ->
     exists segs ps,
       linkify v o = Ok (render ps) /\ src segs = e /\ Forall seg_shaped segs /\
       Forall2 (piece_spec o) segs ps /\
-      (~ In 62 (o_extra o) -> strip_tags (render ps) false = unlinked ps).
+      (extra_clean (o_extra o) -> strip_tags (render ps) false = unlinked ps).
 Proof. exact linkify_structure. Qed.
 Print Assumptions C22_linkify_is_escaped_text_plus_links.
 
@@ -44,7 +44,7 @@ Print Assumptions C22_linkify_error.
 Theorem C22_anchors_removed_is_escaped_input :
   forall v o e, xhtml_escape v = Ok e -> o_shorten o = false ->
     exists ps, linkify v o = Ok (render ps) /\ unlinked ps = e /\
-               (~ In 62 (o_extra o) -> strip_tags (render ps) false = e).
+               (extra_clean (o_extra o) -> strip_tags (render ps) false = e).
 Proof. exact anchors_removed. Qed.
 Print Assumptions C22_anchors_removed_is_escaped_input.
 
@@ -86,7 +86,7 @@ Print Assumptions C22_entity_guard_is_sound.
 
 (* the old witness .../abcde&fgh/... with shorten=True: the label now stops before the entity *)
 Theorem C22_old_witness_now_fine :
-  linkify (SStr witness_text) (mk_opts true [] false [[104;116;116;112]]) =
+  linkify (SStr witness_text) (mk_opts true (XSStr []) false [[104;116;116;112]]) =
   Ok (a_open ++ html_escape witness_text ++ 34 :: title_attr (html_escape witness_text) ++ 62 :: witness_label ++ a_close).
 Proof. exact witness_now_fine. Qed.
 Print Assumptions C22_old_witness_now_fine.
@@ -98,3 +98,27 @@ Theorem C22_model_satisfies_checker :
   forall i, check_case i (run_case i) = true.
 Proof. exact model_satisfies_checker. Qed.
 Print Assumptions C22_model_satisfies_checker.
+
+(* 7. extra_params, given as a str or as ANY function from the href to a text:
+      (a) it has no influence on which matches become links, on any href or on any label; *)
+Theorem C22_extra_params_cannot_change_links :
+  forall o x m, erase_params (make_link (with_extra o x) m) = erase_params (make_link o m).
+Proof. exact extra_irrelevant. Qed.
+Print Assumptions C22_extra_params_cannot_change_links.
+
+(*    (b) the text after the href attribute is exactly params_of: nothing for the empty str,
+      a space and the stripped str, or a space and the stripped result of the callable applied
+      to the very href that is rendered (http:// already prefixed for www. links), followed by
+      title=href exactly when the label differs from the URL. *)
+Theorem C22_extra_params_placement :
+  forall o m href params label, make_link o m = PLink href params label ->
+    params = params_of (o_extra o) href ++ (if negb (list_N_eqb label (m_g1 m)) then title_attr href else []) /\
+    href = (if has_proto m then m_g1 m else http_prefix ++ m_g1 m).
+Proof. exact link_params. Qed.
+Print Assumptions C22_extra_params_placement.
+
+(* 8. The bytes code path: a bytes argument gives exactly the result of the str it decodes to. *)
+Theorem C22_bytes_input_is_decoded_str :
+  forall b s o, to_unicode_s (SBytes b) = Ok s -> linkify (SBytes b) o = linkify (SStr s) o.
+Proof. exact linkify_bytes_as_str. Qed.
+Print Assumptions C22_bytes_input_is_decoded_str.
